@@ -11,6 +11,17 @@ LEVEL = "proof"
 
 BINOPS = {"+", "-", "*", "/", "%", "&&", "||", "==", "!=", "<", "<=", ">", ">=", "&", "**", "<<", ">>"}
 FILLS = [" ", "  ", "\t", " \t ", " /* c */ ", " /* a */ /* b */ ", " /**/ ", "\t/* x\ty */\t", " /* // */ ", " /* * / */ "]
+# what may stand wherever ONE line break may stand: the break itself, blank lines, lines that hold only a comment (several in a row),
+# with LF or CRLF endings - each a composition of the insertions the property permits (break a line, add a line comment at a line
+# end, add blanks / block comments between tokens)
+BREAKS = ["\n", "\n\n", "\n\n\n", "\n// own line\n", "\n  # note\n", "\n// a\n// b\n", "\n\n  // c\n\n", "\n/* block */\n", "\n \t \n",
+          "\r\n\r\n", "\r\n// c\r\n", " // at the end\n\n", "\n\t// c\n\t/* d */ // e\n", "\n#\n//\n", "\n\n\n\n\n"]
+MULTI_BREAKS = BREAKS[1:]
+
+
+def brk(rng, indent):
+    """the text of a permitted line break: one break, or blank / comment-only lines"""
+    return (rng.choice(BREAKS) if rng.chance(2, 3) else "\n") + indent
 
 
 def parse_tokens(line):
@@ -48,15 +59,15 @@ def variant(rng, src, toks, mode):
             elif mode == "linecomment" and ty == "EOL":
                 out.append(" // trailing" if rng.chance(1, 2) else "  # note")
             elif mode == "blank" and prev == "EOL" and ty != "EOL":
-                out.append("\n" * (1 + rng.below(2)) + rng.choice(["", "// own line\n", "/* block */\n"]))
+                out.append("\n" * (1 + rng.below(3)) + rng.choice(["", "// own line\n", "/* block */\n", "# a\n\n// b\n", "  // c\n\t\n"]))
             elif mode == "break":
                 if prev in BINOPS and i >= 2 and toks[i - 2][0] not in ("(", "[", ",", "=", ":=", "EOL", "{", ";", "RETURN", ":", "?") \
                         and prev not in ("-",) and rng.chance(2, 3):
-                    out.append("\n  ")
+                    out.append(brk(rng, "  "))
                 elif prev == "," and stack and stack[-1] in ("list", "args", "map") and rng.chance(2, 3):
-                    out.append("\n    ")
+                    out.append(brk(rng, "    "))
                 elif prev == "|" and rng.chance(2, 3):
-                    out.append("\n  ")
+                    out.append(brk(rng, "  "))
         before = toks[i - 1][0] if i > 0 else ""
         before2 = toks[i - 2][0] if i > 1 else ""
         if ty == "(":
@@ -80,6 +91,24 @@ def variant(rng, src, toks, mode):
     if mode == "crlf":
         s = s.replace("\n", "\r\n")
     return s
+
+
+def go_past(astobs, sources):
+    """parser-mode AST dumps of the implementation only (no models), sharded"""
+    from concurrent.futures import ThreadPoolExecutor
+    nsh = max(1, min(C.NCPU, len(sources) // 500))
+    chunks = [sources[k::nsh] for k in range(nsh)]
+
+    def one(k):
+        inp = "".join(m.encode("utf-8", "surrogateescape").hex() + "\n" for m in chunks[k])
+        return subprocess.run([astobs, "lines", "past"], input=inp.encode(), stdout=subprocess.PIPE).stdout.decode("utf-8", "replace").splitlines()
+    with ThreadPoolExecutor(max_workers=nsh) as ex:
+        parts = list(ex.map(one, range(nsh)))
+    out = [None] * len(sources)
+    for k in range(nsh):
+        for jj, l in enumerate(parts[k][:len(chunks[k])]):
+            out[k + jj * nsh] = l
+    return out
 
 
 def mutate(rng, src, toks):
@@ -192,6 +221,9 @@ def run(res):
     nprog = 700 if tier == "quick" else 12000
     nvar = 6 if tier == "quick" else 12
     nmut = 5000 if tier == "quick" else 150000
+    ngap = 60 if tier == "quick" else 100000      # token gaps probed per program
+    nmulti = 9000 if tier == "quick" else 120000  # multi-line fills judged
+    nper = 12 if tier == "quick" else 60          # ... at least this many per kind of gap
     cov = res.coverage
 
     ok, log = C.translate("precedence", "GenPrecedence.v")
@@ -239,6 +271,40 @@ def run(res):
                     variants.append(v)
                     origin.append((i, m))
         stv = core.stages(variants, tools, os.path.join(work, "var"), want=("tok", "past", "code"))
+        # where ONE line break is accepted (the implementation parses the program with a break put into that token gap to the tree
+        # of the original), blank lines and comment-only lines, LF or CRLF, must be accepted too: every gap of every program is
+        # probed with a single break, a sample of the accepting gaps gets each a multi-line fill
+        probes, porigin = [], []
+        for i, src in enumerate(base):
+            toks = parse_tokens(st0["tok_go"][i])
+            if toks is None or not st0["past_go"][i].startswith("(prog"):
+                continue
+            gaps = list(range(1, len(toks)))
+            if len(gaps) > ngap:
+                gaps = sorted(rng.choice(gaps) for _ in range(ngap))
+            for g in gaps:
+                sc = toks[g][1] if toks[g][0] != "EOF" else len(src)
+                probes.append(src[:sc] + "\n" + src[sc:])
+                porigin.append((i, sc, toks[g - 1][0], toks[g][0]))
+        single = go_past(tools["astobs"], probes)
+        accepting = [k for k in range(len(probes)) if single[k] is not None and single[k] == st0["past_go"][porigin[k][0]]]
+        # every kind of gap (token before / token after) is represented before volume is added
+        by_kind = {}
+        for k in accepting:
+            by_kind.setdefault(porigin[k][2:], []).append(k)
+        chosen = []
+        for kind in sorted(by_kind):
+            ks = by_kind[kind]
+            chosen += [ks[rng.below(len(ks))] for _ in range(min(len(ks), nper))]
+        while len(chosen) < min(nmulti, len(accepting)):
+            chosen.append(accepting[rng.below(len(accepting))])
+        multis, morigin = [], []
+        for k in chosen:
+            i, sc, before, after = porigin[k]
+            fill = rng.choice(MULTI_BREAKS)
+            multis.append(base[i][:sc] + fill + base[i][sc:])
+            morigin.append((i, before, after, fill))
+        stb = core.stages(multis, tools, os.path.join(work, "brk"), want=("tok", "past", "code"))
         muts, mut_origin = [], []
         j = 0
         # mutants of the programs and of their re-laid-out variants (errors after comments, blank lines, CRLF, line breaks)
@@ -280,7 +346,7 @@ def run(res):
 
     oracle, corr = [], []
     # model correspondence on base, variants and mutants (tokens with positions, ASTs / error class + position)
-    for name, st, srcs in (("base", st0, base), ("variant", stv, variants), ("mutant", stm, muts)):
+    for name, st, srcs in (("base", st0, base), ("variant", stv, variants), ("line-break fill", stb, multis), ("mutant", stm, muts)):
         for stage, a, b in (("tok", "tok_go", "tok_mo"), ("past", "past_go", "past_mo"), ("code", "code_go", "code_mo")):
             if a not in st or b not in st:
                 continue
@@ -290,6 +356,19 @@ def run(res):
                     continue
                 if x != y:
                     corr.append({"stage": stage + " (" + name + ")", "source": srcs[i], "impl": x[:400], "model": y[:400]})
+    brk_ok = 0
+    brk_kinds = {}
+    for v, (i, before, after, fill), past, code in zip(multis, morigin, stb["past_go"], stb["code_go"]):
+        kind = before + " . " + after
+        brk_kinds[kind] = brk_kinds.get(kind, 0) + 1
+        if past == st0["past_go"][i] and code == st0["code_go"][i]:
+            brk_ok += 1
+            continue
+        oracle.append({"kind": "oracle-violation", "stage": "blank / comment-only lines where one line break is accepted", "source": v,
+                       "original": base[i], "gap": "between %s and %s" % (before, after), "fill": fill,
+                       "ast_original": st0["past_go"][i][:400], "ast_variant": past[:400],
+                       "why": "a single line break between %s and %s leaves the syntax tree as it is, but %r in the same place (blank lines / "
+                              "comment-only lines) changed the syntax tree or the bytecode, or made the program an error" % (before, after, fill)})
     # layout oracle
     layout_ok = 0
     mode_hist = {}
@@ -366,11 +445,14 @@ def run(res):
         if why:
             oracle.append({"kind": "oracle-violation", "stage": "diagnostics", "source": src, "impl": d, "why": why})
 
-    cov["evaluations"] = len(base) + len(variants) + len(muts)
-    cov["distinct_nontrivial"] = len(set(variants)) + len(set(muts))
+    cov["evaluations"] = len(base) + len(variants) + len(probes) + len(multis) + len(muts)
+    cov["distinct_nontrivial"] = len(set(variants)) + len(set(multis)) + len(set(muts))
     cov["rule"] = ("generated programs re-laid-out at every token gap with the permitted insertions (blanks, tabs, block comments incl. "
                    "adjacent ones, line comments at line ends, blank/comment lines between statements, line breaks after ',' in "
-                   "brackets, after a binary operator, after '|', CRLF): AST dump and bytecode must equal the original's; single-token "
+                   "brackets, after a binary operator, after '|' - the break being one line break or blank / comment-only lines, several in a row -, CRLF): AST dump and bytecode must equal the original's; "
+                   "every token gap probed with one line break, and where the tree is unchanged by it a fill of blank lines / comment-only lines (LF, CRLF) in the same gap "
+                   "must leave tree and bytecode unchanged too (all kinds of gap: inside lists, argument and parameter lists, maps, sets, after operators, pipes and dots, "
+                   "between statements, inside blocks and switch cases); single-token "
                    "deletions/insertions/substitutions of the programs AND of their re-laid-out variants, and syntax errors put inside the braces of template "
                    "strings (existing templates, and new statements at any line end: after comments, after multi-line raw strings, in nested "
                    "blocks, behind multi-byte text): the reported line and column must exist in the source, the quoted line must be "
@@ -378,6 +460,9 @@ def run(res):
                    "(tokens with all position fields, AST or error class with line/column). Non-trivial = distinct variants + mutants.")
     cov["samples"] = [{"variant_mode": origin[0][1], "variant": variants[0]}, {"mutant": muts[0], "diagnostic": diags[0]}]
     cov["layout"] = {"variants": len(variants), "equal": layout_ok, "by_mode": mode_hist}
+    cov["line_breaks"] = {"gaps_probed_with_one_break": len(probes), "accepting": len(accepting), "multi_line_fills": len(multis),
+                          "equal": brk_ok, "kinds_of_gap": len(brk_kinds),
+                          "most_frequent_kinds": dict(sorted(brk_kinds.items(), key=lambda kv: -kv[1])[:40])}
     cov["diagnostics"] = {"mutants": len(muts), "by_outcome": kinds, "parser_errors_checked": diag_checked}
     cov["model_correspondence_differences"] = len(corr)
     res.assumptions += [
